@@ -629,6 +629,19 @@ def gen_ripasso():
     return "\n\n".join(parts) + "\n"
 
 
+def zexpr(n):
+    """An integer expression over constants and `seqlen` (the bounds of the sequencing ranges)."""
+    if isinstance(n, ast.Constant) and isinstance(n.value, int):
+        return f"({n.value})%Z"
+    if isinstance(n, ast.UnaryOp) and isinstance(n.op, ast.USub):
+        return f"(Z.opp {zexpr(n.operand)})"
+    if isinstance(n, ast.Name) and n.id == "seqlen":
+        return "seqlen"
+    if isinstance(n, ast.BinOp) and isinstance(n.op, (ast.Add, ast.Sub)):
+        return f"(Z.{'add' if isinstance(n.op, ast.Add) else 'sub'} {zexpr(n.left)} {zexpr(n.right)})"
+    raise Unsupported(f"integer bound: {ast.unparse(n)}")
+
+
 def gen_guards():
     """The nested rescaler of outputForAWGFile and the numeric range guards of both back ends."""
     path = os.path.join(SRC, "sequence.py")
@@ -650,8 +663,33 @@ def gen_guards():
                 exn = exc.func.id if isinstance(exc, ast.Call) and isinstance(exc.func, ast.Name) else "?"
                 items.append((ast.unparse(nd.test), exn))
         # the guards in source order, as data: (condition text, exception); theorems in Numeric/Rescale.v pin them
+        # numeric content of the membership guards, so that the hand model's constants are tied to the source by proof
+        for nd in sorted((x for x in ast.walk(f) if isinstance(x, ast.If)), key=lambda x: x.lineno):
+            t = nd.test
+            if not (len(nd.body) == 1 and isinstance(nd.body[0], ast.Raise)):
+                continue
+            if isinstance(t, ast.Compare) and len(t.ops) == 1 and isinstance(t.ops[0], ast.NotIn) and isinstance(t.left, ast.Name):
+                var, rhs = t.left.id, t.comparators[0]
+                if isinstance(rhs, (ast.List, ast.Tuple)) and all(isinstance(e, ast.Constant) and isinstance(e.value, int) for e in rhs.elts):
+                    parts.append(f"Definition {meth}_{var}_allowed : list Z := [" + "; ".join(f"({e.value})%Z" for e in rhs.elts) + "].")
+                elif isinstance(rhs, ast.Call) and isinstance(rhs.func, ast.Name) and rhs.func.id == "range" and len(rhs.args) == 2:
+                    parts.append(f"Definition {meth}_{var}_range (seqlen : Z) : Z * Z := ({zexpr(rhs.args[0])}, {zexpr(rhs.args[1])}).")
+                # any other membership guard (dictionary keys, ...) carries no numeric constant; a sequencing guard
+                # rewritten into an unsupported form leaves its definition missing and Numeric/Rescale.v fails to build
+            elif isinstance(t, ast.Compare) and len(t.ops) == 1 and isinstance(t.ops[0], ast.Lt) and ast.unparse(t.left) == "len(wfm)" \
+                    and isinstance(t.comparators[0], ast.Constant):
+                parts.append(f"Definition {meth}_min_points : Z := ({t.comparators[0].value})%Z.")
         lst = ";\n  ".join(f'("{c}"%string, "{e}"%string)' for c, e in items)
         parts.append(f"Definition {meth}_raise_conditions : list (string * string) :=\n [{lst}].")
+    bpt = ast.parse(open(os.path.join(SRC, "blueprint.py")).read())
+    builder = find_function(bpt, ["_subelementBuilder"])
+    mins = [nd.test.comparators[0].value for nd in ast.walk(builder)
+            if isinstance(nd, ast.If) and isinstance(nd.test, ast.Compare) and ast.unparse(nd.test.left) == "int_dur"
+            and isinstance(nd.test.ops[0], ast.Lt) and isinstance(nd.test.comparators[0], ast.Constant)
+            and any(isinstance(b, ast.Raise) for b in nd.body)]
+    if len(mins) != 1:
+        raise Unsupported(f"_subelementBuilder: expected exactly one `if int_dur < k: raise`, found {mins}")
+    parts.append(f"(* blueprint._subelementBuilder: `if int_dur < k: raise SegmentDurationError` *)\nDefinition forge_min_points : Z := ({mins[0]})%Z.")
     return "\n\n".join(parts) + "\n"
 
 
